@@ -77,6 +77,11 @@ class FakeTransport(object):
         return default
 
     def write(self, data):
+        if self.__dict__.get('wfault'):
+            # injected environment fault: this connection's transport refuses writes (the broker's fan-out has a
+            # try/except around every recipient for exactly this)
+            self._rec('wfault')
+            raise OSError('injected write fault on connection %d' % self.cid)
         self._rec('w', bytes(data))
 
     def close(self):
@@ -236,6 +241,8 @@ class Impl(object):
             self._guard(cid, conn.connection_made, t)
         elif k == 'data':
             self._guard(ev[1], self.conns[ev[1]].data_received, hx(ev[2]))
+        elif k == 'wfault':
+            self.tr[ev[1]].wfault = True
         elif k == 'setrow':
             # the operator changes the credential store while the broker runs (rotation, revocation, new user)
             ident = hx(ev[1]).decode('utf-8')
@@ -589,6 +596,13 @@ class Shadow(object):
             c = self.conns[ev[1]]
             c.stream += hx(ev[2])
             self.process(ev[1], exp)
+        elif k == 'wfault':
+            # from now on nothing can be delivered to this connection and the broker may drop it; everybody else
+            # is owed everything as before
+            c = self.conns[ev[1]]
+            c.clean = False
+            c.wfault = True
+            self.flags.add('write-fault')
         elif k == 'setrow':
             if ev[2] is None:
                 self.rows.pop(hx(ev[1]), None)
@@ -766,6 +780,8 @@ def run_script(script, drv, res, want_model=True):
                         V({'C01', 'C05'}, 'malformed-write', 'event %d: broker wrote bytes that are not one frame to %d' % (idx, cid))
                 # a clean connection is never closed or crashed by somebody else's event
                 tgt = ev[1] if len(ev) > 1 and ev[0] not in ('advance', 'dump', 'setrow') else None
+                if getattr(d, 'wfault', False):
+                    continue        # the broker may drop a connection whose transport refuses writes, at any time
                 due_now = ev[0] == 'advance' and d.deadline is not None and d.deadline <= now
                 if cid != tgt and (t.closing and not closing_before.get(cid, False)) and not due_now:
                     V({'C10', 'C09', 'C15'}, 'closed-by-other', 'event %d %r closed connection %d' % (idx, ev[:2], cid))
@@ -812,7 +828,10 @@ def run_script(script, drv, res, want_model=True):
         res.note('reach.' + f)
     res.note('events', len(script['events']))
     res.note('mode.' + cfg['mode'])
-    # ---- model
+    # ---- model (a write fault is outside the model's event vocabulary: such histories are judged by the monitors only)
+    if any(e[0] == 'wfault' for e in script['events']):
+        res.note('monitor-only.write-fault')
+        want_model = False
     if drv is not None and want_model:
         lines, kinds = model_lines(script, labels, chans)
         ans = drv.ask_many(lines)
@@ -927,7 +946,7 @@ CHANS = ['c1', 'c2', 'c3', 'C1', 'c', '', 'c1x', '日本']
 
 def mk_cfg(rng, mode, profile):
     rows = {}
-    names = ['alice', 'bob', 'carol'] + (['ünï'] if rng.random() < 0.3 else []) + ([''] if rng.random() < 0.1 else [])
+    names = ['alice', 'bob', 'carol'] + (['ünï'] if rng.random() < 0.4 else []) + ([''] if rng.random() < 0.1 else [])
     for n in names:
         if profile in ('fanout', 'subs', 'gauges', 'stall', 'async', 'loss', 'window'):
             pub = ['c1', 'c2', 'c3']
@@ -1005,6 +1024,17 @@ class Gen(object):
             old = rng.choice(self.stale[ident])
             if self.rows.get(ident, {}).get('secret') != old:
                 return enc(P.OP_AUTH, p8(ident.encode()) + hashlib.sha1(self.nonce[cid] + old.encode()).digest())
+        if not valid and rng.random() < 0.15:
+            # an ident that differs from a configured one only by unicode normalisation / case, with the RIGHT secret
+            import unicodedata
+            cands = []
+            for i in self.rows:
+                for v in (unicodedata.normalize('NFD', i), unicodedata.normalize('NFC', i), i.upper(), i.title(), i + ' '):
+                    if v != i and v not in self.rows and len(v.encode()) < 256:
+                        cands.append((v, i))
+            if cands:
+                v, i = rng.choice(cands)
+                return enc(P.OP_AUTH, p8(v.encode()) + hashlib.sha1(self.nonce[cid] + self.rows[i]['secret'].encode()).digest())
         if not valid:
             k = rng.choice(['wrong-secret', 'prefix', 'empty', '19', '21', 'other-nonce', 'other-ident', 'unknown'])
             if k == 'wrong-secret':
@@ -1111,6 +1141,8 @@ class Gen(object):
 
 
 def gen_script(rng, tier, profile):
+    force_wfault = profile.endswith('+wfault')
+    profile = profile.split('+')[0]
     mode = 'async' if profile == 'async' or (profile in ('adversary', 'loss') and rng.random() < 0.25) else 'sync'
     cfg = mk_cfg(rng, mode, profile)
     g = Gen(rng, cfg, profile, tier)
@@ -1133,6 +1165,8 @@ def gen_script(rng, tier, profile):
                 do(['lost', cid])
                 deadlines.pop(cid, None) if False else None
 
+    # one history in eight of the fan-out profiles gets an injected write fault on one subscriber (monitors only)
+    wfault_at = rng.randint(nev // 3, nev - 2) if (mode == 'sync' and profile in ('fanout', 'subs', 'adversary') and (force_wfault or rng.random() < 0.125) and nev > 6) else None
     try:
         for _ in range(nev):
             for c in due():
@@ -1147,6 +1181,12 @@ def gen_script(rng, tier, profile):
                 g.nonce[cid] = nonce
                 do(['connect', cid, nonce.hex()])
                 continue
+            if wfault_at is not None and _ >= wfault_at:
+                subs_now = [c for c in live if impl.conns[c].active_subscriptions]
+                if len(subs_now) >= 2:
+                    wfault_at = None
+                    do(['wfault', rng.choice(subs_now)])
+                    continue
             if mode == 'sync' and g.rows and rng.random() < {'preauth': 0.08, 'reauth': 0.08, 'spoof': 0.06, 'acl': 0.06, 'adversary': 0.04}.get(profile, 0.0):
                 do(g.store_change())
                 continue
@@ -1219,6 +1259,22 @@ def gen_script(rng, tier, profile):
                 k = rng.randint(1, len(data) - 1)
                 g.tail[cid] = data[k:]
                 data = data[:k]
+            # several sockets are readable in ONE loop iteration: the next connection's bytes are handled before
+            # anything this event deferred (call_soon, task steps) has run.  Only with a synchronous store (an
+            # asynchronous look-up is itself started by a task step) and while no drop is due.
+            live2 = [c for c in live if c != cid]
+            if mode == 'sync' and live2 and not deadlines and rng.random() < {'fanout': 0.3, 'subs': 0.2, 'window': 0.2, 'reauth': 0.15}.get(profile, 0.1):
+                impl.idle = False
+                do(['data', cid, hexin(data)])
+                impl.idle = True
+                events.append(['nogap'])
+                cid2 = rng.choice(live2)
+                if not impl.tr[cid2].closing and not impl.tr[cid2].paused and not impl.tr[cid2].gone:
+                    data2 = g.tail.pop(cid2, b'') or g.client_frames(cid2)
+                    do(['data', cid2, hexin(data2)])
+                else:
+                    do(['advance', 0])
+                continue
             do(['data', cid, hexin(data)])
         for c in due():
             do(['fire', c])
@@ -1447,13 +1503,13 @@ def directed_search(res, drv, limit=4):
 
 
 PROFILES = {
-    'C01': ['fanout', 'window', 'subs', 'adversary', 'loss', 'reauth'],
+    'C01': ['fanout', 'window', 'subs', 'adversary', 'loss', 'reauth', 'fanout+wfault'],
     'C02': ['preauth', 'preauth', 'adversary'],
     'C03': ['spoof', 'reauth', 'acl', 'spoof'],
     'C04': ['acl', 'window', 'adversary', 'reauth', 'loss'],
     'C08': ['subs', 'reauth', 'gauges', 'subs'],
     'C09': ['loss', 'window', 'gauges', 'async', 'fanout'],
-    'C10': ['adversary', 'window', 'loss', 'stall', 'adversary'],
+    'C10': ['adversary', 'window', 'loss', 'stall', 'adversary', 'fanout+wfault'],
     'C14': ['async'],
     'C15': ['stall', 'stall', 'fanout'],
     'C19': ['gauges', 'reauth', 'loss', 'subs', 'gauges'],
